@@ -326,6 +326,10 @@ func (j JSONNode) getNode(nn interface{}) (Node, error) {
 		n = &ProgramNode{}
 	case "comment":
 		n = &CommentNode{}
+	case "chain":
+		n = &ChainNode{}
+	default:
+		return nil, fmt.Errorf("unknown node type %q", typ)
 	}
 	err = n.unmarshal(node)
 	return n, err
